@@ -22,6 +22,7 @@ class Harness:
     concrete: bool = False  # True: no symbolic inputs -> run as concrete seed, reported separately
     gen: Optional[Callable] = None  # rng, tier -> concrete args inside the box (engine self-check)
     kind: str = "crosshair"  # or "smt": body(tier) -> list of query result dicts
+    pre_order: str = "partition_first"  # or "base_first": order of pre-condition lines in the generated wrappers (affects path counts only)
     gate: bool = False  # concrete validation of a model/oracle: failure => all verdicts of the run INCONCLUSIVE, never VIOLATION
     real_twin: Optional[Callable] = None  # replay through the real library (model-based harnesses)
 
